@@ -10,6 +10,13 @@ def instances():
                 if t != 'i32' and sp == 4: continue
                 for ck in ('vec', 'arr'): out.append((kind, sp, t, pat, ck))
     return out
+def fw_instances():
+    """mdarray over user layouts whose flags differ from one another (the forwarders must report the mapping's own answers)"""
+    out = []
+    for kind in ('urev', 'ubc', 'ulog'):
+        for t in ('i32', 'u8'):
+            for pat in ((None,), (None, None), (3, None)): out.append((kind, None, t, pat, 'vec'))
+    return out
 def key(i):
     kind, sp, t, pat, ck = i
     return 'arr:%s:%s:%s%s:%s' % (kind, t, pat_str(pat), (':%s' % sp) if sp is not None else '', ck)
@@ -18,7 +25,7 @@ def line(i):
     return 'arr %s %s pat=%s%s k=%s' % (kind, t, pat_str(pat), (' sp=%s' % sp) if sp is not None else '', ck)
 def sources(ntu=16):
     tus = [[] for _ in range(ntu)]
-    for n, i in enumerate(instances()):
+    for n, i in enumerate(instances() + fw_instances()):
         kind, sp, t, pat, ck = i
         spv = 'md::dynamic_extent' if sp in (None, 'D') else str(sp)
         ctr = 'std::vector<int>' if ck == 'vec' else 'std::array<int, 64>'
